@@ -1,0 +1,16 @@
+//go:build verif
+// +build verif
+
+package linker
+
+import "github.com/evanw/esbuild/internal/css_ast"
+
+// Thin wrappers (no logic) used by the verification harness in /verif.
+
+func VerifIsConditionalImportRedundant(earlier []css_ast.ImportConditions, later []css_ast.ImportConditions) bool {
+	return isConditionalImportRedundant(earlier, later)
+}
+
+func VerifImportConditionsAreEqual(a []css_ast.ImportConditions, b []css_ast.ImportConditions) bool {
+	return importConditionsAreEqual(a, b)
+}
